@@ -4,7 +4,8 @@
 		g_hk = nondet_size_t(); g_u32 = nondet_u32(); g_hb = nondet_u8(); \
 		g_free_calls = nondet_size_t(); g_alloc_ok = nondet_size_t(); g_alloc_fail = nondet_size_t(); \
 		__CPROVER_assume(g_free_calls < ((size_t) 1 << 40) && g_alloc_ok < ((size_t) 1 << 40) && g_alloc_fail < ((size_t) 1 << 40)); \
-		g_m0 = nondet_bool(); g_m1 = nondet_bool(); \
+		g_m0 = nondet_bool(); g_m1 = nondet_bool(); g_r = nondet_size_t(); \
+		g_keep0 = nondet_bool(); g_keep1 = nondet_bool(); g_keep2 = nondet_bool(); g_keep3 = nondet_bool(); \
 		VP_HAVOC_PROTO(); VP_HAVOC_SYNC();    \
 		/* "last seen" pointer records start as NULL (only ever compared); queue heads are made real by VP_AIOQS_PRE; \
 		 * an unknown tail is NULL (see VP_AIOQ_OK) */ \
@@ -75,9 +76,15 @@ static void vp_mk_sock(size_t nc, size_t nt, size_t nu)
 	g_pp->sub  = g_s;
 }
 
-void h_sub0_matches(void) { uint8_t *body; size_t len; VP_HAVOC_GHOSTS(); vp_mk_sock(nondet_size_t(), nondet_size_t(), nondet_size_t()); sub0_matches((g_nc == 2 && nondet_bool()) ? g_c1 : &g_s->master, body, len); VP_CANARY(); }
+#ifdef SUB_MATCH_C1
+void h_sub0_matches(void) { uint8_t *body; size_t len; VP_HAVOC_GHOSTS(); vp_mk_sock(2, nondet_size_t(), nondet_size_t()); sub0_matches(g_c1, body, len); VP_CANARY(); }
+#else
+void h_sub0_matches(void) { uint8_t *body; size_t len; VP_HAVOC_GHOSTS(); vp_mk_sock(1, nondet_size_t(), 0); sub0_matches(&g_s->master, body, len); VP_CANARY(); }
+#endif
 #ifndef SUB_NC
 #define SUB_NC 1
 #endif
 void h_sub0_recv_cb(void) { VP_HAVOC_GHOSTS(); vp_mk_sock(SUB_NC, nondet_size_t(), nondet_size_t()); sub0_recv_cb(g_pp); VP_CANARY(); }
 void h_sub0_ctx_recv(void) { nni_aio *aio; VP_HAVOC_GHOSTS(); vp_mk_sock(nondet_size_t(), nondet_size_t(), nondet_size_t()); sub0_ctx_recv((g_nc == 2 && nondet_bool()) ? (void *) g_c1 : (void *) &g_s->master, aio); VP_CANARY(); }
+void h_sub0_ctx_unsubscribe(void) { const void *buf; size_t sz; VP_HAVOC_GHOSTS(); vp_mk_sock(1, nondet_size_t(), 0); sub0_ctx_unsubscribe(&g_s->master, buf, sz); VP_CANARY(); }
+void h_sub0_ctx_subscribe(void) { const void *buf; size_t sz; VP_HAVOC_GHOSTS(); vp_mk_sock(1, nondet_size_t(), 0); sub0_ctx_subscribe(&g_s->master, buf, sz); VP_CANARY(); }
